@@ -4,6 +4,7 @@
 // doubles + statuses and pushed through a fresh simplify + unsimplify; the postsolved vectors are judged by the exact
 // certificate check against the original LP, the postsolved basis by the C04 validity conditions.
 #include "vx_spx.hpp"
+#include "vx_planted.hpp"
 using namespace vx;
 
 static const char* PS_NAME[17] = {"EMPTY_ROW", "FREE_ROW", "SINGLETON_ROW", "FORCE_ROW", "EMPTY_COL", "FIX_COL", "FREE_ZOBJ_COL",
@@ -245,6 +246,158 @@ static uint64_t run_case(const TinyLP& t, bool keepbounds, uint32_t seed, Ctx& c
    return h;
 }
 
+// ---- planted medium-size LPs (vx_planted.hpp) -----------------------------------------------------------------------------------------
+// simplify; a verdict is compared with the classification known by construction; a reduced LP is solved by a plain simplex (SoPlex object
+// without simplifier and scaler) and THAT optimal basic solution is pushed through unsimplify; the postsolved vectors are judged by the exact
+// certificate check against the original LP (true optimum known by construction), the postsolved basis by validity + exact regularity.
+// Unlike optimize(), nothing here repairs a wrong postsolve by re-solving.
+static uint64_t run_planted8(const PlantedSpec& sp, bool keepbounds, uint32_t seed, Ctx& c)
+{
+   PlantedLP P = planted(sp);
+   const TinyLP& t = P.lp;
+   XLP x = t.exact();
+   const Classification& cl = P.cl;
+   std::string cs = sp.str() + "#kb=" + std::to_string((int)keepbounds) + ",seed=" + std::to_string(seed) + ",primer=-1";
+   c.count("lps_x_cfg");
+   c.count("planted_lps_x_cfg");
+   c.count(std::string("planted_class.") + sp.kindName());
+   SPxLPBase<double> lp;
+   build_lp(lp, t);
+   SPxMainSM<double> sm;
+   sm.setOutstream(g_out);
+   sm.setTolerances(g_tol);
+   SPxSimplifier<double>::Result res;
+   try { res = sm.simplify(lp, 1e100, keepbounds, seed); }
+   catch(const SPxException& e) { c.violation("exception-in-simplify+planted", cs, e.what()); return 1; }
+   std::string tag = ps_tag(sm) + "+planted";
+   c.count(std::string("planted_result.") + RES_NAME[res]);
+   for(int k = 0; k < 17; ++k) if(sm.m_stat.size() >= 17 && sm.m_stat[k] > 0) c.count(std::string("reduction.") + PS_NAME[k], sm.m_stat[k]);
+   uint64_t h = 13 + res;
+   if(res == SPxSimplifier<double>::INFEASIBLE)
+   {
+      if(cl.feasible) c.violation("verdict-infeasible-on-feasible-lp+" + tag, cs, std::string("planted class ") + sp.kindName());
+      return h;
+   }
+   if(res == SPxSimplifier<double>::UNBOUNDED || res == SPxSimplifier<double>::DUAL_INFEASIBLE)
+   {
+      // kinds OPT / COV have a finite optimum, hence are dual feasible; for the planted infeasible LPs dual feasibility is not known by construction
+      if(cl.hasopt) c.violation(std::string("verdict-") + RES_NAME[res] + "-on-dual-feasible-lp+" + tag, cs, "planted LP has the finite optimum " + cl.opt.get_str());
+      return h;
+   }
+   TinyLP red = extract_lp(lp);
+   red.offset = 0;
+   double off = sm.getObjoffset();
+   int rn = red.n, rm = red.m;
+   if(res == SPxSimplifier<double>::VANISHED && (rn > 0 || rm > 0))
+      c.violation("vanished-with-nonempty-reduced-lp+" + tag, cs, "reduced LP has " + std::to_string(rn) + " cols " + std::to_string(rm) + " rows");
+   VectorReal px(rn), py(rm), ps(rm), pr(rn);
+   std::vector<SPxSolver::VarStatus> rs(rm + 1), csx(rn + 1);
+   double redobj = 0;
+   if(rn > 0)
+   {
+      SoPlex s;
+      quiet(s);
+      s.setIntParam(SoPlex::SIMPLIFIER, SoPlex::SIMPLIFIER_OFF);
+      s.setIntParam(SoPlex::SCALER, SoPlex::SCALER_OFF);
+      load_real(s, red, 0);
+      int st = (int)s.optimize();
+      c.count("planted_reduced_status." + std::to_string(st));
+      if((st == 1) != cl.hasopt)
+      {
+         if(st == 1 || st == 2 || st == 3 || st == 4)
+            c.violation(std::string("reduced-lp-status-differs:") + sp.kindName() + "->" + std::to_string(st) + "+" + tag, cs, std::string("planted class ") + sp.kindName() + ", plain simplex on the reduced LP returned status " + std::to_string(st));
+         return h;
+      }
+      if(st != 1) { c.count("reduced_without_optimum"); return h; }
+      s.getPrimal(px); s.getDual(py); s.getSlacksReal(ps); s.getRedCost(pr);
+      s.getBasis(rs.data(), csx.data());
+      redobj = s.objValueReal();
+      // degeneracy class of the reduced vertex (part of the signature, as for the tiny families)
+      bool pdeg = false, ddeg = false;
+      for(int k = 0; k < rn + rm; ++k)
+      {
+         double val = k < rn ? px[k] : ps[k - rn], dk = k < rn ? pr[k] : py[k - rn];
+         double lo = k < rn ? red.lo[k] : red.lhs[k - rn], up = k < rn ? red.up[k] : red.rhs[k - rn];
+         int stt = (int)(k < rn ? csx[k] : rs[k - rn]);
+         if(stt == V_BASIC) { if((lo > -1e100 && fabs(val - lo) < 1e-9) || (up < 1e100 && fabs(val - up) < 1e-9)) pdeg = true; }
+         else if(stt != V_FIXED && fabs(dk) < 1e-9) ddeg = true;
+      }
+      tag = ps_tag(sm) + (pdeg ? "+pdeg" : "") + (ddeg ? "+ddeg" : "") + (!pdeg && !ddeg ? "+nondeg" : "") + "+planted";
+   }
+   else if(!cl.hasopt)
+   {
+      c.violation(std::string("reduced-lp-status-differs:") + sp.kindName() + "->VANISHED+" + tag, cs, "presolve removed the whole LP although the planted LP has no finite optimum");
+      return h;
+   }
+   {
+      double want = Q(cl.opt - x.offset).get_d();
+      if(fabs(want - (redobj + off)) > 1e-6 * (1 + fabs(want)))
+         c.violation("objective-offset-wrong+" + tag, cs, "reduced optimum " + TinyLP::num(redobj) + " + offset " + TinyLP::num(off) + " != original optimum " + TinyLP::num(want));
+   }
+   if(sm.m_stat.size() >= 17) { int tot = 0; for(int k = 0; k < 17; ++k) tot += sm.m_stat[k]; if(tot > 0) c.count("nontrivial"); }
+   try { sm.unsimplify(px, py, ps, pr, rs.data(), csx.data(), true); }
+   catch(const SPxException& e) { c.violation("exception-in-unsimplify+" + tag, cs, e.what()); return h; }
+   c.count("postsolves");
+   c.count("planted_postsolves");
+   RealResult r;
+   r.status = 1;
+   r.hasPrimal = r.hasDual = true;
+   const VectorReal& ux = sm.unsimplifiedPrimal(), &uy = sm.unsimplifiedDual(), &us = sm.unsimplifiedSlacks(), &ur = sm.unsimplifiedRedCost();
+   if(ux.dim() != t.n || ur.dim() != t.n || uy.dim() != t.m || us.dim() != t.m) { c.violation("postsolve-dimension-mismatch+" + tag, cs, ""); return h; }
+   r.x.assign(ux.get_const_ptr(), ux.get_const_ptr() + t.n);
+   r.d.assign(ur.get_const_ptr(), ur.get_const_ptr() + t.n);
+   r.y.assign(uy.get_const_ptr(), uy.get_const_ptr() + t.m);
+   r.s.assign(us.get_const_ptr(), us.get_const_ptr() + t.m);
+   double cx = t.offset;
+   for(int j = 0; j < t.n; ++j) cx += t.c[j] * r.x[j];
+   r.obj = cx;
+   std::string why;
+   std::string rule = check_optimal_certificate(x, r, cl, 1e-6, 1e-6, why);
+   h = h * 31 + fnv_str(rule);
+   if(!rule.empty()) c.violation("postsolve-" + rule + "+" + tag, cs, why);
+   // basis
+   std::vector<SPxSolver::VarStatus> brs(t.m + 1), bcs(t.n + 1);
+   sm.getBasis(brs.data(), bcs.data(), t.m, t.n);
+   std::vector<int> basic;
+   std::string berr;
+   for(int j = 0; j < t.n && berr.empty(); ++j)
+   {
+      int st = (int)bcs[j];
+      if(st == V_BASIC) basic.push_back(j);
+      else if(st == V_ON_LOWER && t.lo[j] <= -1e100) berr = "col " + std::to_string(j) + " nonbasic at infinite lower";
+      else if(st == V_ON_UPPER && t.up[j] >= 1e100) berr = "col " + std::to_string(j) + " nonbasic at infinite upper";
+      else if(st == V_FIXED && t.lo[j] != t.up[j]) berr = "col " + std::to_string(j) + " FIXED with different bounds";
+      else if(st == V_ZERO && (t.lo[j] > -1e100 || t.up[j] < 1e100)) berr = "col " + std::to_string(j) + " ZERO but not free";
+      else if(st < 0 || st > 4) berr = "col " + std::to_string(j) + " status code " + std::to_string(st);
+   }
+   for(int i = 0; i < t.m && berr.empty(); ++i)
+   {
+      int st = (int)brs[i];
+      if(st == V_BASIC) basic.push_back(t.n + i);
+      else if(st == V_ON_LOWER && t.lhs[i] <= -1e100) berr = "row " + std::to_string(i) + " nonbasic at infinite lhs";
+      else if(st == V_ON_UPPER && t.rhs[i] >= 1e100) berr = "row " + std::to_string(i) + " nonbasic at infinite rhs";
+      else if(st == V_FIXED && t.lhs[i] != t.rhs[i]) berr = "row " + std::to_string(i) + " FIXED with different sides";
+      else if(st == V_ZERO && (t.lhs[i] > -1e100 || t.rhs[i] < 1e100)) berr = "row " + std::to_string(i) + " ZERO but not free";
+      else if(st < 0 || st > 4) berr = "row " + std::to_string(i) + " status code " + std::to_string(st);
+   }
+   if(berr.empty() && (int)basic.size() != t.m) berr = std::to_string(basic.size()) + " basic variables for " + std::to_string(t.m) + " rows";
+   if(berr.empty() && t.m > 0)
+   {
+      std::vector<std::vector<Q>> B(t.m, std::vector<Q>(t.m));
+      for(int i = 0; i < t.m; ++i) for(int k = 0; k < t.m; ++k) B[i][k] = x.col(i, basic[k]);
+      if(qdet(B) == 0) berr = "postsolved basis matrix is singular";
+   }
+   if(!berr.empty())
+   {
+      std::string kind = berr.find("ZERO") != std::string::npos ? "zero-on-bounded" : berr.find("basic variables") != std::string::npos ? "count" :
+                         berr.find("singular") != std::string::npos ? "singular" : berr.find("infinite") != std::string::npos ? "at-infinite-bound" : "other";
+      c.violation("postsolve-invalid-basis:" + kind + "+" + tag, cs, berr);
+   }
+   if(rule.empty() && berr.empty() && c.wantSample())
+      c.sample("{\"planted_lp\":" + jstr(sp.str()) + ",\"keepbounds\":" + std::to_string((int)keepbounds) + ",\"result\":" + jstr(RES_NAME[res]) + ",\"reductions\":" + jstr(tag) + ",\"reduced_dims\":" + jstr(std::to_string(rn) + "x" + std::to_string(rm)) + "}");
+   return h;
+}
+
 int main(int argc, char** argv)
 {
    Args args = parse_args(argc, argv);
@@ -260,10 +413,13 @@ int main(int argc, char** argv)
       p += 9;
       std::string cs = doc.substr(p, doc.find('"', p) - p);
       size_t h = cs.find('#');
-      TinyLP t = TinyLP::parse(cs.substr(0, h));
       int kb = 0, seed = 0, primer = -1;
       sscanf(cs.c_str() + h, "#kb=%d,seed=%d,primer=%d", &kb, &seed, &primer);
       mallopt(M_PERTURB, 85);
+      PlantedSpec psp;
+      if(cs.compare(0, 2, "P:") == 0 && PlantedSpec::parse(cs.substr(0, h), psp))
+         return replay_case([&](Ctx & c) { run_planted8(psp, kb != 0, (uint32_t)seed, c); });
+      TinyLP t = TinyLP::parse(cs.substr(0, h));
       return replay_case([&](Ctx & c) { run_case(t, kb != 0, (uint32_t)seed, c, primer); });
    }
    bool thorough = args.tier == "thorough";
@@ -301,6 +457,20 @@ int main(int argc, char** argv)
          if(thorough || pr == int(idx % NPRIMERS)) h = h * 31 + run_case(t, (idx & 4) != 0, 0, c, pr);
       return h;
    }, [&](uint64_t idx, uint64_t) { TinyLP t; fs.get(idx, t); return t.str() + "#kb=0,seed=0,primer=-1"; }, o);
+   {
+      static PlantedGrid pg;
+      pg.sizes = {{4, 3}, {5, 8}, {8, 5}, {10, 10}, {16, 12}, {12, 20}, {24, 24}, {40, 25}, {30, 40}, {40, 40}};
+      pg.densities = {15, 40};
+      pg.seeds = thorough ? 30 : 4;
+      pg.kinds = 4;
+      rep.phase("planted LPs up to 40x40 x keepbounds" + std::string(thorough ? " x 4 seeds" : ""), pg.size() * 2, [&](uint64_t idx, int, Ctx & c) -> uint64_t
+      {
+         uint64_t h = 1;
+         for(int sd = 0; sd < (thorough ? 4 : 1); ++sd) h = h * 31 + run_planted8(pg.at(idx / 2), (idx & 1) != 0, (uint32_t)sd, c);
+         return h;
+      }, [&](uint64_t idx, uint64_t) { return pg.at(idx / 2).str() + "#kb=" + std::to_string((int)(idx & 1)) + ",seed=0,primer=-1"; }, o);
+      rep.extra["planted_grid"] = jstr("sizes (n x m) 4x3 5x8 8x5 10x10 16x12 12x20 24x24 40x25 30x40 40x40; densities 15/40 %; degenerate 0/1; min/max; kinds OPT/INF/UNB/COV; seeds 0.." + std::to_string(pg.seeds - 1));
+   }
    rep.evaluations = rep.all.counters["lps_x_cfg"] + rep.all.counters["postsolves"];
    rep.rule = "case = (canonical tiny LP, keepbounds, seed): simplify once, then one simplify+unsimplify per optimal basic solution of the reduced LP "
               "(all of them, from exact basis enumeration); non-trivial = a case in which at least one presolve reduction fired and a postsolve was executed";
